@@ -73,14 +73,13 @@ static std::string run_case(const Case& cs, Stat* st = nullptr, const double* cu
     if (err.empty() && on_forbidden && fmag > 0) { if (st) st->forbidden_forces++;
         if (!(Fn.dot(cpa_to_node * -1.0) > 0) || !(Ff.dot(cpa_to_node) > 0)) { snprintf(buf, sizeof buf, "force-does-not-push-the-node-back-to-the-surface: node on the forbidden side at depth %.6g, F_node.(surface - node) = %.6g, F_triangle.(node - surface) = %.6g", d, Fn.dot(cpa_to_node * -1.0), Ff.dot(cpa_to_node)); err = buf; } }
     // the repulsion is central: the node is pushed along the line to its closest point on the triangle (here: the base point, straight below it), the reaction is shared among the
-    // three nodes of the triangle by the barycentric weights of that point, and (coupling models) its size is strength x face area x distance
+    // three nodes of the triangle by the barycentric weights of that point, and its size is strength x face area x distance
     if (err.empty() && on_forbidden && fmag > 0) { const vec3 inplane = Fn - nf * Fn.dot(nf);
         if (inplane.norm() > 1e-9 * fmag) { snprintf(buf, sizeof buf, "force-does-not-push-the-node-back-to-the-surface: the force on the node has a component of %.6g of %.6g in the plane of the triangle although its closest point lies straight below it", inplane.norm(), fmag); err = buf; }
         const double w[3][3] = {{1. / 3, 1. / 3, 1. / 3}, {0.5, 0.5, 0}, {1, 0, 0}}; const unsigned ids3[3] = {f.n1_id_, f.n2_id_, f.n3_id_};
         for (int k = 0; k < 3 && err.empty(); k++) { vec3 want = Fn * (-w[cs.base][k]); if ((B->node_lst_[ids3[k]].force_ - want).norm() > 1e-9 * fmag) { snprintf(buf, sizeof buf, "contact-force-not-reciprocal: node %d of the triangle carries (%.6g,%.6g,%.6g), its share of the reaction is (%.6g,%.6g,%.6g)", k, B->node_lst_[ids3[k]].force_.dx(), B->node_lst_[ids3[k]].force_.dy(), B->node_lst_[ids3[k]].force_.dz(), want.dx(), want.dy(), want.dz()); err = buf; } }
-#if CONTACT_MODEL_INDEX != 0
+        // (all three models; the face type is the one the face carries once the contact has been recorded on it)
         { const double rs = B->get_cell_type()->face_types_[f.type_id_].repulsion_strength_, A2 = 0.5 * (b - a).cross(c - a).norm(), want = rs * A2 * d; if (err.empty() && std::fabs(fmag - want) > 1e-9 * want) { snprintf(buf, sizeof buf, "repulsion-is-not-strength-x-area-x-distance: |F| = %.9g, the face type's repulsion strength %.6g x area %.6g x distance %.6g = %.9g", fmag, rs, A2, d, want); err = buf; } }
-#endif
     }
     // each cut-off governs the regime it is named after: within the relevant cut-off, doubling or quartering the OTHER cut-off changes neither the force on the node nor whether it is coupled
     if (err.empty() && d < rel_cut * (1 - 1e-9) && d > 0) for (double factor : {2.0, 0.25}) { if (!err.empty()) break; const double other[3] = {on_forbidden ? factor * cadh : cadh, on_forbidden ? crep : factor * crep, rel_cut}; Probe pr; std::string e2 = run_case(cs, nullptr, other, &pr);
